@@ -1530,3 +1530,46 @@ PITGdT9dgN88nHPCle0B1+OY+OZ5
 		}
 	}
 }
+
+/// Verification hooks (compiled only under `--cfg rustls_rcgen_verif`): forwarding
+/// functions that expose private units of this module to an external harness crate.
+#[cfg(rustls_rcgen_verif)]
+#[doc(hidden)]
+#[allow(missing_docs, unreachable_pub)]
+pub mod verif_hooks_certificate {
+	use super::*;
+
+	pub fn write_extension_request_attribute(params: &CertificateParams, writer: DERWriter) {
+		params.write_extension_request_attribute(writer)
+	}
+	pub fn write_key_usage(params: &CertificateParams, writer: DERWriter) {
+		params.write_key_usage(writer)
+	}
+	pub fn write_extended_key_usage(params: &CertificateParams, writer: DERWriter) {
+		params.write_extended_key_usage(writer)
+	}
+	pub fn write_subject_alt_names(params: &CertificateParams, writer: DERWriter) {
+		params.write_subject_alt_names(writer)
+	}
+	pub fn write_general_subtrees(writer: DERWriter, tag: u64, subtrees: &[GeneralSubtree]) {
+		super::write_general_subtrees(writer, tag, subtrees)
+	}
+	pub fn general_subtree_tag(subtree: &GeneralSubtree) -> u64 {
+		subtree.tag()
+	}
+	pub fn cidr_subnet_to_bytes(subnet: &CidrSubnet) -> Vec<u8> {
+		subnet.to_bytes()
+	}
+	pub fn extended_key_usage_oid(eku: &ExtendedKeyUsagePurpose) -> &[u64] {
+		eku.oid()
+	}
+	pub fn name_constraints_is_empty(nc: &NameConstraints) -> bool {
+		nc.is_empty()
+	}
+	#[cfg(feature = "x509-parser")]
+	pub fn convert_x509_general_subtrees(
+		subtrees: &[x509_parser::extensions::GeneralSubtree<'_>],
+	) -> Result<Vec<GeneralSubtree>, Error> {
+		CertificateParams::convert_x509_general_subtrees(subtrees)
+	}
+}
